@@ -338,8 +338,10 @@ def res_of(v):
     raise ValueError(f"not a res value: {v!r}")
 
 
-def eval_coq(tag: str, preamble: str, terms: list[str], shard: int = 400, jobs: int = 8, timeout: int = 600):
-    """Evaluate each term with vm_compute; returns list of parsed values (or ('coq-error', msg))."""
+def eval_coq(tag: str, preamble: str, terms: list[str], shard: int = 400, jobs: int = 8, timeout: int = 600,
+             _retry: bool = True):
+    """Evaluate each term with vm_compute; returns list of parsed values (or ('coq-error', msg)).
+    A shard that fails as a whole is re-evaluated one case per file so that one bad term cannot hide the others."""
     d = os.path.join(OUT, "cases", tag)
     os.makedirs(d, exist_ok=True)
     for f in os.listdir(d):
@@ -377,8 +379,14 @@ def eval_coq(tag: str, preamble: str, terms: list[str], shard: int = 400, jobs: 
         cnt = min(shard, len(terms) - base)
         if rc != 0 or len(vals) != cnt:
             msg = out.strip()[-2000:]
-            for k in range(cnt):
-                results[base + k] = ("coq-error", msg)
+            if _retry and cnt > 1:
+                sub = eval_coq(tag + "_retry", preamble, terms[base:base + cnt], shard=1, jobs=jobs, timeout=timeout,
+                               _retry=False)
+                for k in range(cnt):
+                    results[base + k] = sub[k]
+            else:
+                for k in range(cnt):
+                    results[base + k] = ("coq-error", msg)
             continue
         for k, v in enumerate(vals):
             try:
